@@ -92,6 +92,7 @@ func c13FromPatch(patch string, holes map[string]ref.HoleKind) c13Change {
 type c13Layout struct {
 	MetaStyle   int // 0 grouped by type, 1 one per line, 2 ';'-separated on one line, 3 reversed order
 	NameIt      bool
+	SameName    bool // the name given is the same for every change ("cleanup")
 	CommentsTop []string // '#' lines separated from the header by a blank line (not a description)
 	BlankTop    int      // blank lines before the first header
 	Desc        []string // description lines directly above the header (nil: keep the base's)
@@ -254,6 +255,9 @@ func c13Render(changes []c13Change, layouts []c13Layout) (string, [][]string) {
 		name := ch.Name
 		if lo.NameIt && name == "" {
 			name = fmt.Sprintf("change_%d", ci)
+			if lo.SameName {
+				name = "cleanup"
+			}
 		}
 		if name != "" {
 			b.WriteString("@ " + name + " @\n")
@@ -430,6 +434,7 @@ func c13DrawLayout(rt *rapid.T, ch c13Change, idx int, ops map[string]bool) c13L
 	}
 	if rapid.IntRange(0, 2).Draw(rt, l("name")) == 0 {
 		lo.NameIt = true
+		lo.SameName = rapid.IntRange(0, 2).Draw(rt, l("sameName")) == 0
 		ops["name-change"] = true
 	}
 	if rapid.IntRange(0, 2).Draw(rt, l("topc")) == 0 {
@@ -480,7 +485,8 @@ func c13DrawLayout(rt *rapid.T, ch c13Change, idx int, ops map[string]bool) c13L
 		}
 		sort.Strings(names)
 		for _, n := range names {
-			lo.Rename[n] = fmt.Sprintf("Zq%dmeta%d", idx, i)
+			// (names that end in "line", in "var" ...: a name is a name)
+			lo.Rename[n] = fmt.Sprintf("Zq%dmeta%d%s", idx, i, []string{"", "", "line", "pipeline", "var", "expression"}[(idx+i+len(n))%6])
 			i++
 		}
 		ops["rename-metavars"] = true
